@@ -2,6 +2,7 @@ package main
 
 import (
 	"fmt"
+	"strings"
 	"sync"
 
 	"github.com/gobuffalo/plush/v5"
@@ -24,6 +25,8 @@ var c14templates = []string{
 	`<%= raw("<i>") %><%= "<i>" %><%= n + 1 %><%= !missing %>`,
 	`<%= name ~= "^g0" %><%= name ~= "1$" %><%= "ZAZ" ~= "A" %><%= "ZAZ" ~= "^A" %>`,
 	`<%= for (x) in items { %><%= x ~= "a" %><%= x ~= "[0-9]" %>,<% } %>`,
+	// a helper that fills defaults into the options map it is given, called WITHOUT options
+	`<%= tagopt(name) %>|<%= tagopt("x" + name) %>|<%= tagopt(name, {id: "mine"}) %>`,
 }
 
 func c14ctx(parent *plush.Context, g int) *plush.Context {
@@ -34,6 +37,12 @@ func c14ctx(parent *plush.Context, g int) *plush.Context {
 		c = plush.NewContext()
 		c.Set("partialFeeder", func(string) (string, error) { return `[<%= who %>]`, nil })
 	}
+	c.Set("tagopt", func(name string, opts map[string]interface{}) string {
+		if _, ok := opts["id"]; !ok {
+			opts["id"] = name + "-field"
+		}
+		return fmt.Sprint(opts["id"])
+	})
 	c.Set("name", fmt.Sprintf("g%d", g%3))
 	c.Set("n", g%4)
 	c.Set("items", []string{"a", "b", fmt.Sprint(g % 2)})
@@ -136,6 +145,14 @@ func init() {
 						e.Count("exec-" + mode)
 						e.Distinct(fmt.Sprintf("exec/%d/%s/%d/%v", ti, mode, G, cache))
 						for g := 0; g < G; g++ {
+							// where the result has a closed form it is checked absolutely: a fault shared by the
+							// sequential and the concurrent run would otherwise cancel out
+							if strings.Contains(src, "tagopt(") {
+								if abs := fmt.Sprintf("g%d-field|xg%d-field|mine", g%3, g%3); want[g] != abs {
+									e.Violate("c14-output-differs", fmt.Sprintf("template %q goroutine %d (%s, cache=%v): run alone it gives %q, its data says %q", src, g, mode, cache, want[g], abs), map[string]interface{}{"template": src, "mode": mode, "cache": cache})
+									break
+								}
+							}
 							if got[g] != want[g] {
 								e.Violate("c14-output-differs", fmt.Sprintf("template %q goroutine %d of %d (%s, cache=%v): concurrent result %q, alone %q", src, g, G, mode, cache, got[g], want[g]), map[string]interface{}{"template": src, "goroutines": G, "mode": mode, "cache": cache})
 							}
